@@ -10,7 +10,7 @@ PROPERTY = 'C10'
 LEVEL = 'fault_enumeration'
 RULE = (
     '1-4 producers and 1-5 consumers (single `await queue` gets and `async for` iteration, fast '
-    'and slow) on one queue, put/get/close times on a colliding grid; every scenario is run '
+    'and slow) on one queue, put/get/close times on a colliding grid; in 40% of the scenarios all items are equal, equally hashing, falsy objects (told apart by identity only) and in 40% the Queue object has served an earlier complete run(); every scenario is run '
     'un-injected and with cancel / until-interrupt / close injected at activation boundaries of '
     'any participant (quick: sampled; thorough: every boundary x participant x kind + double '
     'faults) - this includes "woken for an item but signalled before taking it" and "signalled '
@@ -36,6 +36,31 @@ REQUIRED_STATS = ['items_received', 'gets_waited', 'signals_landed', 'struck:can
 GRID = [0, 0, 0, 0.5, 0.5, 1, 1, 2]
 
 
+class Twin:
+    """payload that is equal to every other Twin, hashes alike and is falsy: streams must treat
+    messages as opaque objects (identity), never compare, deduplicate or truth-test them"""
+    __slots__ = ('ident',)
+
+    def __init__(self, ident):
+        self.ident = ident
+
+    def __eq__(self, other):
+        return isinstance(other, Twin)
+
+    def __hash__(self):
+        return 0
+
+    def __bool__(self):
+        return False
+
+    def __repr__(self):
+        return 'Twin(%s)' % self.ident
+
+
+def unwrap(payload):
+    return payload.ident if isinstance(payload, Twin) else payload
+
+
 def n_cases(tier):
     return 400 if tier == 'quick' else 450
 
@@ -59,7 +84,8 @@ def make_case(seed, index, tier):
                           'count': rng.randint(1, 5), 'offset': rng.choice(GRID),
                           'work': rng.choice([0, 0, 0.5, 1])})
     return {'seed': seed, 'index': index, 'tier': tier,
-            'scenario': {'producers': producers, 'consumers': consumers}}
+            'scenario': {'producers': producers, 'consumers': consumers},
+            'twins': rng.random() < 0.4, 'reused': rng.random() < 0.4}
 
 
 class QueueChecker:
@@ -162,7 +188,7 @@ class QueueChecker:
             self.pending.remove(who)
 
     def quiescence(self, sess, loop):
-        final = list(self.queue._buffer)
+        final = [unwrap(item) for item in self.queue._buffer]
         got = [item for item, _ in self.received]
         for item in self.put_done:
             if item not in got and item not in final and item not in self.rejected:
@@ -192,11 +218,32 @@ class QueueChecker:
              if item not in self.put_done and item not in self.rejected])
 
 
+def earlier_simulation(queue):
+    """a complete, separate run() in which the same Queue object was used (and left empty)"""
+    import usim
+
+    async def taker(count):
+        for _ in range(count):
+            await queue
+
+    async def main():
+        async with usim.Scope() as scope:
+            scope.do(taker(2))
+            scope.do(taker(1))
+            await (time + 1)
+            for item in ('x', 'y', 'z'):
+                await queue.put(item)
+    usim.run(main())
+
+
 def build_for(case):
     scenario = case['scenario']
 
     def build(arena):
         queue = Queue()
+        wrap = Twin if case.get('twins') else str
+        if case.get('reused'):
+            earlier_simulation(queue)
         checker = QueueChecker(arena, queue)
 
         def producer(spec):
@@ -215,7 +262,7 @@ def build_for(case):
                         checker.put_start_closed_mark(item)
                     checker.put_start(name, item)
                     try:
-                        await queue.put(item)
+                        await queue.put(wrap(item))
                     except StreamClosed:
                         checker.put_rejected(name, item)
                     else:
@@ -233,7 +280,7 @@ def build_for(case):
                     for _ in range(spec['count']):
                         checker.get_start(name)
                         try:
-                            item = await queue
+                            item = unwrap(await queue)
                         except StreamClosed:
                             checker.get_closed(name)
                             break
@@ -249,6 +296,7 @@ def build_for(case):
                     checker.get_start(name)
                     try:
                         async for item in queue:
+                            item = unwrap(item)
                             checker.got(name, item)
                             checker.stats['gets_waited'] += 1
                             count += 1
@@ -258,7 +306,7 @@ def build_for(case):
                                 # a single get from inside the iteration over the same queue
                                 checker.get_start(name)
                                 try:
-                                    extra = await queue
+                                    extra = unwrap(await queue)
                                 except StreamClosed:
                                     checker.get_closed(name)
                                 else:
